@@ -10,7 +10,7 @@ run_batch() {
 r1=$(ls seeded | grep -E '^C[0-9]+$')
 r2=$(ls seeded | grep -E '^C[0-9]+_r2$')
 r3=$(ls seeded | grep -E '^C[0-9]+_r3$')
-run_batch $r1
-run_batch $r2
+[ "${ONLY:-}" = "r3" ] || run_batch $r1
+[ "${ONLY:-}" = "r3" ] || run_batch $r2
 run_batch $r3
 sort /tmp/mw/detect_all.txt
